@@ -758,7 +758,11 @@ func (ev *Env) call(e *ECall) Value {
 			fx.enc.ghosts = map[string]int{}
 		}
 		fx.enc.ghosts[e.Fun] = ar
-		return IntV(app("g!"+e.Fun, ts...), tInt)
+		gt := app("g!"+e.Fun, ts...)
+		if fx.E.S.GhostByte[e.Fun] && fx.enc.quiet == 0 {
+			fx.enc.Assume(And(Le("0", gt), Le(gt, "255")))
+		}
+		return IntV(gt, tInt)
 	}
 	ev.errf("unknown function %q in contract", e.Fun)
 	return Value{}
